@@ -440,3 +440,143 @@ func (b *Built) ClosureScan() (bad []string, refs int) {
 	}
 	return bad, refs
 }
+
+// ---------------------------------------------------------------------------------------------
+// Method-name reference scan ("deps complete" for methods reached by NAME at run time)
+// ---------------------------------------------------------------------------------------------
+
+// jsMembers are member names the translator / prelude call on JS values; a `.name(` with one of these names is not
+// evidence of a Go method call.
+var jsMembers = map[string]bool{"apply": true, "call": true, "bind": true, "keyFor": true, "charCodeAt": true, "push": true,
+	"getUint32": true, "setUint32": true, "zero": true, "set": true, "get": true, "delete": true, "has": true, "ptr": true,
+	"next": true, "log": true, "keys": true, "values": true, "entries": true, "elem": true, "init": true, "copy": true,
+	"concat": true, "slice": true, "subarray": true, "indexOf": true, "join": true, "toString": true, "constructor": true,
+	"nil": true, "length": true, "substring": true, "wrap": true, "exit": true}
+
+var ifaceMethodExprRe = regexp.MustCompile(`\$ifaceMethodExpr\("([A-Za-z_][A-Za-z0-9_]*)"\)`)
+var callMemberRe = regexp.MustCompile(`\.([a-z_][A-Za-z0-9_]*)\(`)
+
+// lastStringArg returns the last argument of the call whose opening parenthesis is at code[open], when that argument
+// is a string literal `"name"`.
+func lastStringArg(code []byte, open int) (string, bool) {
+	depth := 0
+	for i := open; i < len(code); i++ {
+		switch code[i] {
+		case '(':
+			depth++
+		case ')':
+			depth--
+			if depth == 0 {
+				// expect ... , "name")
+				j := i - 1
+				if j < 0 || code[j] != '"' {
+					return "", false
+				}
+				k := j - 1
+				for k >= 0 && code[k] != '"' {
+					k--
+				}
+				if k < 0 {
+					return "", false
+				}
+				return string(code[k+1 : j]), true
+			}
+		case '"':
+			i++
+			for i < len(code) && code[i] != '"' {
+				if code[i] == '\\' {
+					i++
+				}
+				i++
+			}
+		}
+	}
+	return "", false
+}
+
+func unexportedName(n string) bool { return n != "" && !(n[0] >= 'A' && n[0] <= 'Z') }
+
+// MethodRefScan checks, on the code of every SELECTED declaration, that a reference to an unexported method BY NAME
+//   - $ifaceMethodExpr("m")            method expression on an interface type
+//   - $methodVal(recv, "m")            method value
+//   - $methodExpr(T, "m")              method expression on a concrete type
+//   - recv.m(                          call (interface or concrete receiver; JS member names excluded)
+// is accompanied by a recorded dependency on a method filter `<pkg>.m(<signature>)` of the same declaration, whenever
+// some type of that package declares an unexported method m (i.e. there is a declaration that only this dependency
+// can keep alive).  Returns the offending references and the number of references checked per kind.
+func (b *Built) MethodRefScan() (bad []string, checked map[string]int) {
+	checked = map[string]int{}
+	// unexported method names declared per package, from the method filters of method declarations
+	declared := map[string]map[string]bool{}
+	for _, d := range b.Decls {
+		if d.Meth == "" || !strings.HasPrefix(d.Meth, d.Pkg+".") {
+			continue
+		}
+		rest := d.Meth[len(d.Pkg)+1:]
+		if i := strings.IndexByte(rest, '('); i > 0 {
+			if declared[d.Pkg] == nil {
+				declared[d.Pkg] = map[string]bool{}
+			}
+			declared[d.Pkg][rest[:i]] = true
+		}
+	}
+	for i, d := range b.Ptrs {
+		di := b.Decls[i]
+		if !di.Selected || declared[di.Pkg] == nil {
+			continue
+		}
+		raw := declCode(d)
+		refs := map[string]string{} // name -> kind of the first reference
+		add := func(name, kind string) {
+			if unexportedName(name) && declared[di.Pkg][name] {
+				checked[kind]++
+				if _, ok := refs[name]; !ok {
+					refs[name] = kind
+				}
+			}
+		}
+		for _, m := range ifaceMethodExprRe.FindAllSubmatch(raw, -1) {
+			add(string(m[1]), "ifaceMethodExpr")
+		}
+		for _, fn := range []string{"$methodVal(", "$methodExpr("} {
+			from := 0
+			for {
+				k := bytes.Index(raw[from:], []byte(fn))
+				if k < 0 {
+					break
+				}
+				open := from + k + len(fn) - 1
+				if name, ok := lastStringArg(raw, open); ok {
+					add(name, fn[1:len(fn)-1])
+				}
+				from = open + 1
+			}
+		}
+		for _, m := range callMemberRe.FindAllSubmatch(stripLiterals(raw), -1) {
+			if !jsMembers[string(m[1])] {
+				add(string(m[1]), "call")
+			}
+		}
+		names := make([]string, 0, len(refs))
+		for n := range refs {
+			names = append(names, n)
+		}
+		sort.Strings(names)
+		for _, n := range names {
+			prefix := di.Pkg + "." + n + "("
+			// the declaration of method n itself contains the receiver-adapting wrappers `this.$val.n(…)` / `this.$get().n(…)`
+			found := strings.HasPrefix(di.Meth, prefix)
+			for _, dep := range di.Deps {
+				if strings.HasPrefix(dep, prefix) {
+					found = true
+					break
+				}
+			}
+			if !found {
+				bad = append(bad, fmt.Sprintf("%s: %s refers to unexported method %q by name (%s) but records no dependency on %s…)",
+					di.Pkg, di.FullName, n, refs[n], prefix))
+			}
+		}
+	}
+	return bad, checked
+}
